@@ -164,6 +164,17 @@ class Gen:
                     "math.radians(90.0)", "math.pow(2.0, 3.0)", "np.absolute(-2.5)", "abs(-2.5)", "max(1.5, 0.5, 2.5)", "min(1.5, 0.5)", "pow(2.0, 0.5)", "math.log(2.5)", "np.arctan2(1.0, -1.0)",
                 ]) + f" * {a}"
                 self.features.add("known_function_of_constants")
+            if rng.random() < 0.35:
+                # any one- or two-argument function of math / numpy, whether or not the translator's table lists it (a new
+                # table entry is covered the day it is added): on constants of either sign, or on the arguments
+                cand = _module_functions()
+                mod, fn_, nin = cand[rng.randrange(len(cand))]
+                if rng.random() < 0.6:
+                    one, two = rng.choice(["-1.5", "0.5", "2.5", "-0.25"]), rng.choice(["-5.5, 2.0", "5.5, -2.0", "2.5, 1.5", "-1.5, -0.5", "7.0, 3.0"])
+                    call = f"{mod}.{fn_}({one if nin == 1 else two}) * {a}"
+                else:
+                    call = f"{mod}.{fn_}({a} - 1.5)" if nin == 1 else f"{mod}.{fn_}({a} - 1.5, {b} - 1.25)"
+                self.features.add("function_drawn_from_the_module_itself")
             self.features.add("shape:table_call")
             self.features.add("known_function_of_the_arguments:" + call.split("(")[0].replace("(2.0 if ", "").strip())
             text = f"def {name}({', '.join(params)}):\n    return {call} + 0.25 * {rng.choice(params)}\n"
@@ -347,7 +358,7 @@ class Gen:
             lines.append(f"return {self.expr(names, 2, fns)}")
         return lines
 
-    def module(self, nfun: int = 6) -> tuple[str, list[dict]]:
+    def module(self, nfun: int = 6, sweep_slice: tuple[int, int] | None = None) -> tuple[str, list[dict]]:
         rng = self.rng
         head = f'"""generated"""\nimport math\nimport numpy as np\nimport kinlib.constants\nimport kinlib.thermo.constants\nimport {self.helper}\nfrom {self.helper} import h2\n\nC1 = 1.25\ny = 0.75  # shadowed by the argument y wherever a function has one\n\n\ndef h1(a):\n    return a * 3.0 + 1.0\n\n\n'
         src = [head]
@@ -364,6 +375,16 @@ class Gen:
             meta.append({"name": name, "nparams": npar, "features": sorted(feats), "source": text})
             if not any(f.startswith("outside") for f in feats):
                 fns.append((name, npar))
+        if sweep_slice is not None:
+            # this module's share of the systematic sweep: every function of math / numpy on constants of either sign
+            i, n = sweep_slice
+            for j, call in enumerate(module_sweep_calls()):
+                if j % n != i % n:
+                    continue
+                name = f"g{j}"
+                text = f"def {name}(x, y):\n    return {call} * x + 0.25 * y\n"
+                src.append(text + "\n\n")
+                meta.append({"name": name, "nparams": 2, "features": ["function_drawn_from_the_module_itself", "shape:module_sweep", "module_sweep:" + call.split("(")[0]], "source": text})
         return "".join(src), meta
 
 
@@ -407,4 +428,35 @@ def block_features(src: str) -> set[str]:
                 out.add("if_without_else_followed_by_statements")
 
     visit(fn.body, 0)
+    return out
+
+
+_MODULE_FUNCTIONS: list[tuple[str, str, int]] = []
+
+
+def _module_functions() -> list[tuple[str, str, int]]:
+    """(module alias, function, number of arguments) for the float functions of math and the ufuncs of numpy."""
+    if not _MODULE_FUNCTIONS:
+        import math
+
+        import numpy as np
+
+        two = {"atan2", "copysign", "fmod", "hypot", "remainder", "pow", "log", "dist", "ldexp", "nextafter", "gcd", "lcm", "comb", "perm", "isclose"}
+        skip = {"fsum", "prod", "frexp", "modf", "isfinite", "isinf", "isnan", "isclose", "dist", "ldexp", "sumprod", "fma", "nextafter", "ulp"}
+        for n in sorted(dir(math)):
+            if n.startswith("_") or not callable(getattr(math, n)) or n in skip:
+                continue
+            _MODULE_FUNCTIONS.append(("math", n, 2 if n in two else 1))
+        for n in sorted(dir(np)):
+            f = getattr(np, n)
+            if isinstance(f, np.ufunc) and f.nout == 1 and f.nin in (1, 2) and not n.startswith(("bitwise", "logical", "is", "left_", "right_", "invert", "signbit", "matmul", "vecdot", "vecmat", "matvec", "frexp", "modf", "divmod", "spacing", "nextafter", "ldexp", "gcd", "lcm")):
+                _MODULE_FUNCTIONS.append(("np", n, f.nin))
+    return _MODULE_FUNCTIONS
+
+
+def module_sweep_calls() -> list[str]:
+    out = []
+    for mod, fn_, nin in _module_functions():
+        args = ["-1.5", "0.5", "2.5"] if nin == 1 else ["-5.5, 2.0", "5.5, -2.0", "2.5, 1.5", "-1.5, -0.5"]
+        out += [f"{mod}.{fn_}({a})" for a in args]
     return out
